@@ -113,7 +113,7 @@ func emitDetInput(repo string) {
 			shape := ""
 			switch kw {
 			case "type":
-				shape = strings.TrimRight(strings.Fields(rest+" ?")[0], "{")
+				shape = strings.TrimRight(strings.Fields(rest + " ?")[0], "{")
 			case "const", "var":
 				if strings.HasPrefix(rest, "=") {
 					shape = "untyped"
